@@ -9,6 +9,7 @@ import (
 	"go/token"
 	"go/types"
 	"sort"
+	"strconv"
 	"strings"
 )
 
@@ -1015,27 +1016,28 @@ func c05DecRef(r *Run, m *ServerModel) {
 			n++
 			pos := false
 			cas := false
+			// the count is known positive on every path: "x > C" holds with C >= 0, or
+			// "C > x" is refuted with C >= 1 ("x <= 0" is canonicalised as "x > 0" with flipped
+			// polarity; a refuted "0 > x" only gives x >= 0, which is not enough)
+			pos = len(ex.St.Paths) > 0
 			for _, p := range ex.St.Paths {
+				pp := false
 				for k, v := range p {
-					if strings.Contains(k, "> 0") && strings.HasPrefix(k, "0 >") {
-						continue
-					}
-					if (strings.HasPrefix(k, "0 > ") && !v) || (strings.HasSuffix(k, " > 0") && v) {
-						pos = true
+					if i := strings.Index(k, " > "); i > 0 {
+						l, rr := k[:i], k[i+3:]
+						if c, err := strconv.Atoi(rr); err == nil && c >= 0 && v {
+							pp = true
+						}
+						if c, err := strconv.Atoi(l); err == nil && c >= 1 && !v {
+							pp = true
+						}
 					}
 					if strings.Contains(k, "CompareAndSwapInt64") && v {
 						cas = true
 					}
 				}
-			}
-			// "r <= 0" is canonicalised as "r > 0" with flipped polarity.
-			if !pos {
-				for _, p := range ex.St.Paths {
-					for k, v := range p {
-						if strings.HasSuffix(k, " > 0") && v {
-							pos = true
-						}
-					}
+				if !pp {
+					pos = false
 				}
 			}
 			if !pos || !cas {
@@ -1091,6 +1093,31 @@ func c05TableAPI(r *Run, m *ServerModel) {
 			return true
 		})
 		r.check(inc && dec, "r3", "InsertFID: table takes its own reference, releases the replaced one", fi.Decl.Pos(), "newRef.IncRef(); replaced.DecRef()", "InsertFID does not take a reference for the table and release the replaced binding")
+		// ... and takes it before the entry becomes visible to other requests: no store into
+		// the fid table may precede the IncRef (the store may be written in a private helper)
+		stored := func(st *HState, must bool) bool {
+			set := st.May
+			if must {
+				set = st.Must
+			}
+			for k := range set {
+				if strings.HasPrefix(k, "mapstore:") && strings.HasSuffix(k, ".fids") {
+					return true
+				}
+			}
+			return false
+		}
+		for _, s := range m.callsIn(fi, "p9.fidRef.IncRef") {
+			r.check(!stored(s.St, false), "r3", "InsertFID: the table's reference is taken before the entry is published", s.Call.Pos(), "IncRef precedes the store into cs.fids",
+				"the new reference is stored in the fid table before the table's own reference has been taken: a concurrent request on that fid can take the count from 0 to 1 and back to 0, closing a File that is still bound")
+		}
+		okStore := len(m.DB.Exits[fi]) > 0
+		for _, ex := range m.DB.Exits[fi] {
+			if ex.Fn == ast.Node(fi.Decl) && !ex.St.Dead && !stored(ex.St, true) {
+				okStore = false
+			}
+		}
+		r.check(okStore, "r3", "InsertFID: stores into the fid table", fi.Decl.Pos(), "cs.fids[fid] = newRef on every path", "InsertFID does not store the new reference into cs.fids on every path")
 	}
 	if fi := r.mustFunc("r3", "p9", "connState.DeleteFID"); fi != nil {
 		okDel := false
